@@ -441,7 +441,7 @@ def run_atomic(run, P, units=('coap_pdu.c',)):
                                   'written', ctx.path())
             return None
         solve(f, Env(), on_event, None, keys, R, key_fn=lambda e: (e.ts.get('enc'), e.ts.get('encvar'), tuple(e.intf(v)[:2] for v in sorted(resvars))), on_branch=on_branch)
-    run.require(n >= 2 or run.fixture_mode, 'R-FIXUP(bytes before bookkeeping): fewer than 2 editors that encode an option and grow used_size found')
+    run.require_count(n >= 2 or run.fixture_mode, 'R-FIXUP(bytes before bookkeeping): fewer than 2 editors that encode an option and grow used_size found')
 
 
 def run_maxopt(run, P, units=('coap_pdu.c',)):
@@ -488,7 +488,7 @@ def run_maxopt(run, P, units=('coap_pdu.c',)):
                                   'pdu->max_opt is lowered (%s) at a place that is not controlled by "there is no following option": when the highest option number occurs '
                                   'more than once the running number drops below the number of the option that is still last, and the next appended option is encoded with '
                                   'a wrong delta' % short(t)[:50], [])
-    run.require(n >= 1 or run.fixture_mode, 'R-FIXUP(running option number): no decrease of max_opt found in %s' % (units,))
+    run.require_count(n >= 1 or run.fixture_mode, 'R-FIXUP(running option number): no decrease of max_opt found in %s' % (units,))
 
 
 def run_rebase(run, P, units=('coap_pdu.c',)):
@@ -571,7 +571,7 @@ def run_rebase(run, P, units=('coap_pdu.c',)):
                               'pdu->data is tested after pdu->token was re-pointed at the reallocated block and before pdu->data was re-based', ctx.path())
             return env
         solve(f, Env(), on_event, None, keys, R, key_fn=lambda e: e.ts.get('moved'), on_branch=on_branch)
-    run.require(n >= 1 or run.fixture_mode, 'R-FIXUP(re-basing): no function that re-points pdu->token at a reallocated block found in %s' % (units,))
+    run.require_count(n >= 1 or run.fixture_mode, 'R-FIXUP(re-basing): no function that re-points pdu->token at a reallocated block found in %s' % (units,))
 
 
 def run_capacity(run, P, anchor='coap_pdu_check_resize', grow=('coap_pdu_resize',)):
